@@ -461,7 +461,7 @@ func (e *vfEnv) exec(a vfAct) (vfAct, *vfConc) {
 		case a.D < 0:
 			choices := []time.Duration{-2 * time.Second, -2500 * time.Millisecond, -time.Minute, -time.Hour,
 				-24 * time.Hour, -1000000 * time.Hour, math.MinInt64}
-			if e.soon && !e.anchored && e.rng.Intn(8) == 0 {
+			if e.soon && !e.anchored && e.rng.Intn(64) == 0 {
 				dur = []time.Duration{0, 1, -1, 300 * time.Millisecond, -300 * time.Millisecond,
 					-999 * time.Millisecond}[e.rng.Intn(6)]
 			} else {
